@@ -45,6 +45,9 @@ func init() {
 			{ID: "C18.R22", Floor: 10, Run: freshRelationFilterPerCall, Text: "generic FilterN.Filter hands out a relation filter of its own for a per-call target: the target given to a call is never written into a struct owned by the generic filter and handed out by every call"},
 			{ID: "C18.R23", Floor: 1, Run: compileKeyedByWorld, Text: "the compilation is keyed by world: the early return of Compile is taken only where the world argument equals the world recorded at the last compilation (or the filter is registered)"},
 			{ID: "C18.R24", Floor: 10, Run: compiledFiltersFresh, Text: "handed-out filters do not point into re-compiled state: no pointer stored as the compiled filter, or as the inner filter of a per-call RelationFilter, is the address of a struct embedded in the generic filter; Compile allocates them anew"},
+			{ID: "C18.R25", Floor: 1, Run: exchangeBuilderFollowsConfig, Text: "Exchange keeps its builder in step with its configuration: in every method of Exchange that stores add, hasRelation or relationID a store to builder follows on every path to return"},
+			{ID: "C18.R26", Floor: 1, Run: compileGuardFlag, Text: "completion flag of Compile (= C09.R18)"},
+			{ID: "C18.R27", Floor: 1, Run: compileRecomputes, Text: "Compile derives everything again: after its entry guard, a field of the receiver that Compile writes is read only where it was already written in this invocation (ids and the relation id are per world)"},
 		},
 	})
 }
